@@ -6,6 +6,8 @@ implementation claims; the measuring is done here with the specification functio
 -/
 import MsVerif.Driver.OpsMs
 import MsVerif.Spec.Bounds
+import MsVerif.Model.ExtApi
+import MsVerif.Model.Lift
 
 namespace MsVerif.Driver
 open MsVerif Script Bounds
@@ -64,10 +66,34 @@ def firstBad (checks : List (String × Bool)) : String :=
 def le (name : String) (measured claimed : Nat) : String × Bool :=
   (s!"{name}:{measured}>{claimed}", decide (measured ≤ claimed))
 
-/-- `J bound`: measured values of one produced satisfaction against the library's figures -/
+/-- consensus limit on the script itself (P2SH redeem script push, `MAX_SCRIPT_SIZE`) -/
+def b9ConsensusScriptLimit : Ctx → Option Nat
+  | .legacy => some MAX_SCRIPT_ELEMENT_SIZE
+  | .bare | .segwitv0 => some MAX_SCRIPT_SIZE
+  | .tap => none
+
+/-- what the library declares about one script -/
+structure B9Declared where
+  /-- `Miniscript::within_resource_limits()` -/
+  wrl : Bool
+  /-- `validate` accepts under the resource limits of `Ctx::CONSENSUS` / `Ctx::SANE` -/
+  vCons : Bool
+  vSane : Bool
+  /-- `max_satisfaction_size()` / `max_satisfaction_witness_elements()` (`none` = `Err`) -/
+  maxSize : Option Nat
+  maxElems : Option Nat
+
+def b9OptNat (s : String) : Option (Option Nat) :=
+  if s == "none" then some none else s.toNat?.map some
+
+/-- `J bound`: measured values of one produced satisfaction against the library's figures and
+declarations.  The script is executed with all limits enabled as soon as ONE of the library's
+three declarations (`within_resource_limits`, `validate` under the consensus / sane resource
+limits) says it is within them. -/
 def judgeBound (t : Tables) (ctx : Ctx) (lt sq : Nat) (script : Bytes) (wit : List Bytes)
-    (lim : Bool) (staticOps scriptSize pkCost : Nat) (sat : Option SatData) : String :=
-  match execStats t ctx lim script wit lt sq with
+    (dcl : B9Declared) (staticOps scriptSize pkCost : Nat) (sat : Option SatData) : String :=
+  let lim := dcl.wrl
+  match execStats t ctx (dcl.wrl || dcl.vCons || dcl.vSane) script wit lt sq with
   | .error e => "bad:exec:" ++ e
   | .ok st =>
     let count := wit.length
@@ -78,33 +104,78 @@ def judgeBound (t : Tables) (ctx : Ctx) (lt sq : Nat) (script : Bytes) (wit : Li
         le "pkcost" script.length pkCost ]
     let satChecks : List (String × Bool) :=
       match sat with
-      | none => []      -- the library derives no figure for this script: nothing can undershoot
+      | none => [("satisfied-but-no-figure", false)]   -- the library calls the script unsatisfiable
       | some d =>
         [ le "wcount" count d.wCount, le "wsize" size d.wSize ]
         ++ (if ctx == .tap then [] else
             [ le "sssize" ssz d.ssSize, le "ops" st.ops (staticOps + d.execOps) ])
+    -- the public accessors: `max_satisfaction_size` is the serialized witness items in
+    -- Segwitv0 / Tap and the scriptSig pushes in Legacy / Bare; `max_satisfaction_witness_elements`
+    -- counts the witness script as well
+    let apiChecks : List (String × Bool) :=
+      (match dcl.maxSize with
+       | none => [("max_satisfaction_size-is-Err", false)]
+       | some m => [le "max_satisfaction_size" (if ctx == .tap || ctx == .segwitv0 then size else ssz) m])
+      ++ (match dcl.maxElems with
+       | none => [("max_satisfaction_witness_elements-is-Err", false)]
+       | some m => [le "max_satisfaction_witness_elements" (count + 1) m])
     -- stack depth: `max_exec_stack_count` is not one of the figures the property lists and is
-    -- known to be inexact; what is judged is the LIMIT: with `lim` the run above had
-    -- `stackLimits` on, so a peak above 1000 is an execution error
+    -- known to be inexact; what is judged is the LIMIT: the run above had `stackLimits` on, so
+    -- a peak above 1000 is an execution error
     let limChecks : List (String × Bool) :=
-      if !lim then [] else
+      (if !lim then [] else
         (match scriptLimit ctx with
          | some l => [le "limit-scriptsize" script.length l]
          | none => [])
         ++ (if ctx == .segwitv0 then [le "limit-witness-items" count MAX_STANDARD_P2WSH_STACK_ITEMS] else [])
-        ++ (if ctx == .legacy then [le "limit-scriptsig" (ssz + minimalPushLen script) MAX_STANDARD_SCRIPTSIG_SIZE] else [])
-    firstBad (sizeChecks ++ satChecks ++ limChecks)
+        ++ (if ctx == .legacy then [le "limit-scriptsig" (ssz + minimalPushLen script) MAX_STANDARD_SCRIPTSIG_SIZE] else []))
+      ++ (if !dcl.vCons then [] else
+        (match b9ConsensusScriptLimit ctx with
+         | some l => [le "consensus-scriptsize" script.length l]
+         | none => []))
+      ++ (if !dcl.vSane then [] else
+        (match scriptLimit ctx with
+         | some l => [le "sane-scriptsize" script.length l]
+         | none => [])
+        ++ (if ctx == .segwitv0 then [le "sane-witness-items" (count + 1) MAX_STANDARD_P2WSH_STACK_ITEMS] else []))
+    firstBad (sizeChecks ++ satChecks ++ apiChecks ++ limChecks)
+
+def b9ShowVRes : Except VErr Unit → String
+  | .ok _ => "ok"
+  | .error .maxScriptSize => "err:script-size"
+  | .error .maxWitnessItems => "err:witness-items"
+  | .error .maxOpCount => "err:op-count"
+  | .error .maxExecStack => "err:exec-stack"
+  | .error _ => "err:other"
+
+def b9ShowON : Option Nat → String
+  | none => "none"
+  | some n => toString n
 
 def opsBounds (t : Tables) (kind op : String) (args : List String) : Option String :=
   match kind, op, args with
-  -- J bound <ctx> <ast> <assets> <mode> <pad> | <lt> <sq> <script> <wit> lim= st= ssz= pkc= sat=
+  -- model of the public accessors and of the declarations (correspondence)
+  | "C", "maxsat", [ctx, ast] => do
+    let ctx ← parseCtx ctx; let ms ← parseAst ast
+    let e := extOf t.keyEnv ctx ms
+    pure s!"{b9ShowON (maxSatSize ctx e)} {b9ShowON (maxSatWitnessElements e)}"
+  | "C", "wrl", [ctx, ast] => do
+    let ctx ← parseCtx ctx; let ms ← parseAst ast
+    pure (if Lift.withinResourceLimits t.keyEnv ctx ms then "1" else "0")
+  | "C", "rescheck", [ctx, which, ast] => do
+    let ctx ← parseCtx ctx; let ms ← parseAst ast
+    let p := resourceOnly (if which == "consensus" then Ctx.CONSENSUS ctx else Ctx.SANE ctx)
+    pure (b9ShowVRes (resourceCheck p (scriptSize t.keyEnv ctx ms) (extOf t.keyEnv ctx ms)))
+  -- J bound <ctx> <ast> <assets> <mode> <pad> | <lt> <sq> <script> <wit> lim= st= ssz= pkc= sat= vc= vs= mss= mwe=
   | "J", "bound", ctx :: _ast :: _assets :: _mode :: _pad :: "|" :: lt :: sq :: script :: wit ::
-      lim :: st :: ssz :: pkc :: sat :: _ => do
+      lim :: st :: ssz :: pkc :: sat :: vc :: vs :: mss :: mwe :: _ => do
     let ctx ← parseCtx ctx; let lt ← lt.toNat?; let sq ← sq.toNat?
     let script ← Hash.ofHex script; let wit ← parseHexList wit
     let lim ← kvNat "lim" lim; let st ← kvNat "st" st; let ssz ← kvNat "ssz" ssz
     let pkc ← kvNat "pkc" pkc; let sat ← (kv "sat" sat).bind parseSatData
-    pure (judgeBound t ctx lt sq script wit (lim == 1) st ssz pkc sat)
+    let vc ← kvNat "vc" vc; let vs ← kvNat "vs" vs
+    let mss ← (kv "mss" mss).bind b9OptNat; let mwe ← (kv "mwe" mwe).bind b9OptNat
+    pure (judgeBound t ctx lt sq script wit ⟨lim == 1, vc == 1, vs == 1, mss, mwe⟩ st ssz pkc sat)
   -- J descw <kind> <input> <assets> <mode> <pad> | <scriptSig> <witness> claimed=<wu|none> txin_delta=<rust-bitcoin's figure>
   | "J", "descw", _kind :: _input :: _assets :: _mode :: _pad :: "|" :: ss :: wit :: claimed :: delta :: _ => do
     let ss ← Hash.ofHex ss; let wit ← parseHexList wit
@@ -112,14 +183,20 @@ def opsBounds (t : Tables) (kind op : String) (args : List String) : Option Stri
     let measured := txinWeightDelta ss wit
     if measured != delta then pure s!"bad:spec-weight {measured} != rust-bitcoin {delta}"
     else match claimed.toNat? with
-      | none => pure "ok"   -- the library derives no figure (Err): nothing can undershoot
+      | none => pure "bad:satisfied-but-max_weight_to_satisfy-is-Err"
       | some c => pure (firstBad [le "weight" measured c])
-  -- J planw <kind> <input> <assets> <mode> <pad> <src> | <scriptSig> <witness> claimed=<witness_size>,<scriptsig_size>,<satisfaction_weight>
-  | "J", "planw", _kind :: _input :: _assets :: _mode :: _pad :: _src :: "|" :: ss :: wit :: claimed :: _ => do
+  -- J planw <kind> <input> <assets> <mode> <pad> <src> | <scriptSig> <witness> claimed=<witness_size>,<scriptsig_size>,<satisfaction_weight>|none
+  --   src = getsat / plansat: the spend produced by get_satisfaction / Plan::satisfy, all three sizes
+  --   src = items: only the witness ITEMS the plan's template stands for (the trailing witness
+  --         script of wsh / sh(wsh) is dropped before measuring; that it is missing from
+  --         `witness_size` is the known finding keyed on the fixed corpus)
+  | "J", "planw", _kind :: _input :: _assets :: _mode :: _pad :: src :: "|" :: ss :: wit :: claimed :: _ => do
     let ss ← Hash.ofHex ss; let wit ← parseHexList wit
     let claimed ← kv "claimed" claimed
+    if claimed == "none" then pure "bad:no-plan-for-a-produced-satisfaction" else
     match (claimed.splitOn ",").mapM String.toNat? with
     | some [cw, cs, cwt] =>
+      if src == "items" then pure (firstBad [le "witness_items" (witnessSerSize wit.dropLast) cw]) else
       -- Plan::witness_size: "Returns 0 if there is no witness"; Plan::scriptsig_size: "including the var-int prefix"
       let mw := if wit.isEmpty then 0 else witnessSerSize wit
       let ms := scriptSigSerSize ss
